@@ -262,6 +262,9 @@ func (e *Ev) specCall(name string, n *ast.CallExpr) (Term, bool) {
 
 // specFunc inlines a spec function: header "name(p T, q U) R", single clause "= expr" (kind "def").
 func (e *Ev) specFunc(b *Block, n *ast.CallExpr) Term {
+	if b.Kind == "ghost" {
+		return e.ghostFunc(b, n)
+	}
 	hdr := b.Target
 	i := strings.Index(hdr, "(")
 	j := strings.LastIndex(hdr, ")")
@@ -305,4 +308,34 @@ func (e *Ev) specFunc(b *Block, n *ast.CallExpr) Term {
 		}
 	}
 	return r
+}
+
+// ghostFunc applies an uninterpreted spec function declared with `ghost name(p T, ...) R`.
+// Slice arguments contribute only their header (the ghost is a function of the slice value).
+func (e *Ev) ghostFunc(b *Block, n *ast.CallExpr) Term {
+	hdr := b.Target
+	i := strings.Index(hdr, "(")
+	j := strings.LastIndex(hdr, ")")
+	name := strings.TrimSpace(hdr[:i])
+	rtx, err := parser.ParseExpr(strings.TrimSpace(hdr[j+1:]))
+	if err != nil {
+		return e.errorf(n, "ghost %s: bad result type", hdr)
+	}
+	rt := e.evType(rtx)
+	if rt == nil {
+		return e.errorf(n, "ghost %s: unknown result type", hdr)
+	}
+	var sorts, as []string
+	for _, a := range n.Args {
+		t := e.ev(a)
+		if t.UConst != nil {
+			t = e.coerce(t, sInt, true, nil)
+		}
+		sorts = append(sorts, t.Sort)
+		as = append(as, t.S)
+	}
+	rs := e.g().sortOf(rt, false)
+	fn := "ghost$" + name
+	e.g().Pre.add(fmt.Sprintf("(declare-fun %s (%s) %s)", fn, strings.Join(sorts, " "), rs))
+	return Term{S: app(fn, as...), Sort: rs, T: rt, Signed: isSigned(rt)}
 }
